@@ -12,11 +12,14 @@ Decided (structural clauses of the RFC 8439 construction, every path, all inputs
   the incremental API.
   shared     every Poly1305 rule of C05 (clamp, radix weights, message limbs, select, limb bounds, digit reduction) and the
   ChaCha engine's block function as value graphs (C03) are re-evaluated here: the tag is a Poly1305 tag over that keystream.
+  shape-eval the AEAD construction with cipher and MAC UNINTERPRETED (keystream object: fresh symbols by position; MAC object:
+             transcript -> fresh symbols): one-shot new + encrypt delivers ct = pt ^ KS[64..] and
+             tag = T(KS[0..32], aad || pad || ct || pad || LE64 lengths) for 528 (AAD, message) length shapes (aeadshape.py)
 Not decided: composition of the verified cipher pieces into the keystream, the tag as a number."""
 from . import aead, C03, C04
 
 EXPLANATION = __doc__
-TECHNIQUE = "value-graph equality (abstract interpretation of MIR in a hash-consed bit-level term domain with linear-combination, parity and truth-table normal forms) against specification graphs; interval abstract interpretation over ssa terms with exact carry/remainder relations and trace partitioning on carries (inductive limb-bound invariants, overflow-assert discharge); MIR call-order dominance, argument wiring by canonical expression, linear-form predicates and slice windows"
+TECHNIQUE = "value-graph equality (abstract interpretation of MIR in a hash-consed bit-level term domain with linear-combination, parity and truth-table normal forms) against specification graphs; interval abstract interpretation over ssa terms with exact carry/remainder relations and trace partitioning on carries (inductive limb-bound invariants, overflow-assert discharge); MIR call-order dominance, argument wiring by canonical expression, linear-form predicates and slice windows; object-level bounded shape evaluation of the AEAD with uninterpreted keystream and MAC objects against RFC 8439 2.8"
 
 
 def run(ctx):
